@@ -81,13 +81,13 @@ func init() {
 	})
 	register(&Prop{
 		ID:    "C05",
-		Rules: []func(*core.Ctx){RDirCtx, RAtomCtx, RAtomSucc, ROverlapNeg, RMinLenUse, RAtomFlags, ROptLoop, RXField, RAtomMerge, RAtomRep, RSelfShift, REndChild},
+		Rules: []func(*core.Ctx){RDirCtx, RAtomCtx, RAtomSucc, ROverlapNeg, RMinLenUse, RAtomFlags, ROptLoop, RXField, RAtomMerge, RAtomRep, RSelfShift, REndChild, RBoundSet, RDistinct},
 		Explanation: "R-DIRCTX (left-to-right-only reasoning about a Multi's first rune is confined to left-to-right context: local dominance by a direction test or a guarded-call-site fixpoint over the static call graph), R-ATOMCTX (ending-backtracking elimination is invoked only from the five contexts nothing can backtrack into), R-OPTLOOP (a loop's child is treated as following content only under M > 0). " +
 			"These are side conditions every rewrite must respect; the substance of the property (class disjointness, nullability, equality with the un-rewritten pattern) is NOT decided.",
 	})
 	register(&Prop{
 		ID:    "C04",
-		Rules: []func(*core.Ctx){RAcc, RAccCap, RNarrow, RAltMerge, ROptLoop, RNegChars, RDefault, RCompl, RNegFresh, RAltAll, RByteRune, RRuneCut, RMaxAsMin, RCatsToo, RScratch, RFailFirst, RFailProp, RLookFact},
+		Rules: []func(*core.Ctx){RAcc, RAccCap, RNarrow, RAltMerge, ROptLoop, RNegChars, RDefault, RCompl, RNegFresh, RAltAll, RByteRune, RRuneCut, RMaxAsMin, RCatsToo, RScratch, RFailFirst, RFailProp, RLoopSib, RLookFact},
 		Explanation: "Shape conditions every prefix / set / length analysis must meet for what it publishes to be an over-approximation: R-ACC (accumulate-until-stop protocol on SSA paths), R-ACCCAP (a capped loop expansion reports 'fully processed' only through the cap), R-NARROW (the shared prefix of an alternation only shrinks), R-ALTMERGE (an offset is common to all branches only if every branch was merged), R-OPTLOOP (a loop's child is required only under M > 0), R-NEGCHARS (callers of GetSetChars consult IsNegated), R-DEFAULT (unknown node kinds yield 'know nothing'), R-COMPL (complement-of-one-character constructions guard each half by its own constant end), R-NEGFRESH (the negate flag is set only on sets created on the spot or known empty). " +
 			"That the recorded strings, sets and lengths are right for the pattern's language is a semantic property and is NOT decided.",
 	})
